@@ -17,7 +17,10 @@ for d in "$@"; do
   m=$(basename "$d")
   ( cd "$W/repo" && git checkout -q -- . && git apply "$d/patch.diff" ) || { echo "$m APPLY-FAILED" >> "$out"; continue; }
   ( cd "$W/verif/harness" && cargo build --release --offline >/dev/null 2>&1 ) || { echo "$m BUILD-FAILED" >> "$out"; continue; }
-  for p in ${HCV_MATRIX_CHECKS:-C01 C02 C03 C04 C05 C06 C07 C08 C09 C10 C11 C12 C13 C14 C15}; do
+  checks="${HCV_MATRIX_CHECKS:-C01 C02 C03 C04 C05 C06 C07 C08 C09 C10 C11 C12 C13 C14 C15}"
+  # optional plan file: lines "<seeded dir name> <check> <check> ..." restrict the checks per change
+  if [ -n "$HCV_MATRIX_PLAN" ] && grep -q "^$m " "$HCV_MATRIX_PLAN"; then checks=$(grep "^$m " "$HCV_MATRIX_PLAN" | head -1 | cut -d' ' -f2-); fi
+  for p in $checks; do
     o=$(cd "$W/verif/harness" && VERIF_HANG_SECS=60 timeout 900 ./target/release/hcv $p quick 2>&1); code=$?
     kind=$(echo "$o" | grep -o "^--- failure \[[^]]*\]" | head -1 | sed 's/^--- failure //')
     t=$(echo "$o" | grep -o "wall=[0-9.]*s" | tail -1)
